@@ -12,6 +12,9 @@
      txaio/_common.py                     _BatchedTimer.call_later/_notify_bucket/_remove_call
    Incoming traffic is modelled at the level of already parsed events (the octet level is Model/WsRecv.v).
    Time is N milliseconds.  Python exceptions raised to API callers are explicit outputs (Raised).
+   The model follows the code as repaired by ba5bad9e (client arms the server-drop timer after answering the peer's
+   close), d34a3b8b (an invalid close frame is not dispatched) and 86f33b05 (onAutoPingTimeout checks the state).
+   Ghost fields (not in the code, not compared by the correspondence run): gone, closingSince, lastPeerClose.
 
    Environment assumptions built into [step] (they are facts about Twisted/asyncio, not about autobahn):
      - connectionLost / connection_lost is delivered at most once ([gone]); after it no octets are delivered;
@@ -360,8 +363,9 @@ Definition on_close_dispatch (c : cfg) : M :=
     (if echoCloseCodeReason c
      then bindS (fun s1 => send_close_frame c OReply (remoteCode s1) (truncate_opt (remoteReason s1)) true)
      else send_close_frame c OReply (Some code_normal) None true) ;;
-    (if is_server c then drop_connection false
-     else whenM (0 <? serverConnectionDropTimeout c) (arm_exact TServerDrop (serverConnectionDropTimeout c)))
+    (if is_server c then drop_connection false                 (* server: drop the TCP at once *)
+     else whenM (0 <? serverConnectionDropTimeout c)            (* client: the server should; if not, we do *)
+                (arm_exact TServerDrop (serverConnectionDropTimeout c)))
   | CLOSED => upd (set_wasClean false)
   | CONNECTING => ret                             (* "logic error": unreachable, frames are not parsed in CONNECTING *)
   end).
